@@ -166,6 +166,19 @@ struct ParserWorld : World {
 			node root; Outcome o = parse_once(root, t, fmt, 0xff, 0xff, (size_t) -1, (size_t) -1, 0);
 			log.ev("DEEP %lld levels%s -> %d reads=%llu", (long long) deep, closed ? " (closed)" : "", o.rc, (unsigned long long) o.reads);
 			if (o.reader_over) fail("reader-loop", "deep nesting: parser called the reader %llu times for %zu characters", (unsigned long long) o.reads, t.size());
+			if (o.rc >= 0 && root.children) {
+				// the tree exists: copying it and parsing the same text into it once more (which merges level by level) depend on the machine stack no more than building it did
+				size_t depth0 = 0; for (const node *n = root.children; n; n = n->children) ++depth0;
+				node *cp; { Sut s; cp = mpt_list_clone(root.children); }
+				size_t depth = 0; for (const node *n = cp; n; n = n->children) ++depth;
+				if (cp) { node tmp; tmp.children = cp; for (node *n = cp; n; n = n->next) n->parent = &tmp; { Sut s; mpt_node_clear(&tmp); } }
+				Outcome o2 = parse_once(root, t, fmt, 0xff, 0xff, (size_t) -1, (size_t) -1, 0);
+				size_t depth2 = 0; for (const node *n = root.children; n; n = n->children) ++depth2;
+				log.ev("DEEP copy reaches %zu levels; second parse into the tree -> %d, %zu levels", depth, o2.rc, depth2);
+				if (cp && depth != depth0) fail("clone-differs", "the copy of a tree that is %zu levels deep is %zu levels deep", depth0, depth);
+				if (o2.rc >= 0 && depth2 != depth0) fail("not-atomic", "parsing the same text into a tree of %zu levels again left %zu levels", depth0, depth2);
+				st.hit("probe:deep_tree_cloned_and_merged");
+			}
 			{ Sut s; mpt_node_clear(&root); }
 			if (ledger_live()) fail("leak", "deep nesting: %zu block(s) stay allocated after the parse (%d) and clearing the tree", ledger_live(), o.rc);
 			st.hit("probe:deep_nesting"); st.state(399, o.rc < 0 ? 0 : 1, (uint64_t) (deep > 100000));
